@@ -370,3 +370,418 @@ pub fn run(args: &Args) -> i32 {
     }
     0
 }
+
+// ------------------------------------------------------------------------------------------
+// C02 for typed targets: the same document with one sub-node reached through an alias must give the same typed result
+// (records to TV_TypedAlias: {id, form, schema, araw, praw, plain, aliased})
+// ------------------------------------------------------------------------------------------
+#[derive(Serialize)]
+struct ARec<'a> {
+    id: String,
+    /// "wrap": [ &a <node>, <document with *a in that node's place> ] read as (IgnoredAny, T); "inplace": a later identical
+    /// sub-node replaced by an alias to the first, read as T
+    form: &'a str,
+    schema: &'a Schema,
+    yaml: &'a str,
+    plain_yaml: &'a str,
+    araw: &'a [AEv],
+    praw: &'a [AEv],
+    plain: N,
+    aliased: N,
+}
+/// second element of a two-element sequence, the first one discarded
+struct Second(N);
+impl<'de> Deserialize<'de> for Second {
+    fn deserialize<D: serde::de::Deserializer<'de>>(d: D) -> Result<Second, D::Error> {
+        struct V;
+        impl<'de> serde::de::Visitor<'de> for V {
+            type Value = Second;
+            fn expecting(&self, f: &mut std::fmt::Formatter) -> std::fmt::Result {
+                f.write_str("a pair")
+            }
+            fn visit_seq<A: serde::de::SeqAccess<'de>>(self, mut seq: A) -> Result<Second, A::Error> {
+                let _first: serde::de::IgnoredAny = seq.next_element()?.ok_or_else(|| serde::de::Error::custom("first element missing"))?;
+                let d: Dyn = seq.next_element()?.ok_or_else(|| serde::de::Error::custom("second element missing"))?;
+                if seq.next_element::<serde::de::IgnoredAny>()?.is_some() {
+                    return Err(serde::de::Error::custom("surplus element"));
+                }
+                Ok(Second(d.0))
+            }
+        }
+        d.deserialize_tuple(2, V)
+    }
+}
+/// paths (child indices; for a map entry 2*i = key, 2*i+1 = value) of all non-root nodes in pre-order
+fn paths(n: &Node, cur: &mut Vec<usize>, out: &mut Vec<Vec<usize>>) {
+    match n {
+        Node::Seq { items, .. } => {
+            for (i, x) in items.iter().enumerate() {
+                cur.push(i);
+                out.push(cur.clone());
+                paths(x, cur, out);
+                cur.pop();
+            }
+        }
+        Node::Map { entries, .. } => {
+            for (i, (k, v)) in entries.iter().enumerate() {
+                cur.push(2 * i);
+                out.push(cur.clone());
+                paths(k, cur, out);
+                cur.pop();
+                cur.push(2 * i + 1);
+                out.push(cur.clone());
+                paths(v, cur, out);
+                cur.pop();
+            }
+        }
+        _ => {}
+    }
+}
+fn node_at<'a>(n: &'a Node, p: &[usize]) -> &'a Node {
+    if p.is_empty() {
+        return n;
+    }
+    match n {
+        Node::Seq { items, .. } => node_at(&items[p[0]], &p[1..]),
+        Node::Map { entries, .. } => {
+            let (k, v) = &entries[p[0] / 2];
+            node_at(if p[0] % 2 == 0 { k } else { v }, &p[1..])
+        }
+        _ => n,
+    }
+}
+fn replace_at(n: &Node, p: &[usize], with: &Node) -> Node {
+    if p.is_empty() {
+        return with.clone();
+    }
+    match n {
+        Node::Seq { a, t, items } => Node::Seq { a: *a, t: t.clone(), items: items.iter().enumerate().map(|(i, x)| if i == p[0] { replace_at(x, &p[1..], with) } else { x.clone() }).collect() },
+        Node::Map { a, t, entries } => Node::Map {
+            a: *a,
+            t: t.clone(),
+            entries: entries.iter().enumerate().map(|(i, (k, v))| {
+                if i == p[0] / 2 {
+                    if p[0] % 2 == 0 { (replace_at(k, &p[1..], with), v.clone()) } else { (k.clone(), replace_at(v, &p[1..], with)) }
+                } else {
+                    (k.clone(), v.clone())
+                }
+            }).collect(),
+        },
+        other => other.clone(),
+    }
+}
+fn with_anchor(n: &Node, id: u32) -> Node {
+    match n {
+        Node::Scalar { v, q, t, .. } => Node::Scalar { a: id, v: v.clone(), q: q.clone(), t: t.clone() },
+        Node::Seq { t, items, .. } => Node::Seq { a: id, t: t.clone(), items: items.clone() },
+        Node::Map { t, entries, .. } => Node::Map { a: id, t: t.clone(), entries: entries.clone() },
+        other => other.clone(),
+    }
+}
+fn same_events(a: &Node, b: &Node) -> bool {
+    let (mut x, mut y) = (vec![], vec![]);
+    events_from_node(a, &mut x);
+    events_from_node(b, &mut y);
+    x.len() == y.len() && x.iter().zip(&y).all(|(p, q)| p.k == q.k && p.v == q.v && p.q == q.q && p.t == q.t)
+}
+#[derive(Default, Serialize)]
+struct AStats {
+    records: usize,
+    wrap: usize,
+    inplace: usize,
+    key_position: usize,
+    ok_values: usize,
+}
+
+pub fn run_alias(args: &Args) -> i32 {
+    let mut w = NdWriter::create(args.req("out"));
+    let mut stats = AStats::default();
+    let fam = schema_family();
+    let mut rng = Rng::new(args.num("seed", 1));
+    let nrand = args.num("random", 1000);
+    for i in 0..nrand {
+        let sd = 1 + rng.below(3);
+        let schema = if i % 3 == 0 { rng.pick(&fam).clone() } else { random_schema(&mut rng, sd) };
+        let mut node = matching(&schema, &mut rng);
+        for _ in 0..rng.below(2) {
+            let mut target = rng.below(count_nodes(&node)) as isize;
+            node = mutate_at(&node, &mut target, &mut rng);
+        }
+        let mut all = vec![];
+        paths(&node, &mut vec![], &mut all);
+        if all.is_empty() {
+            continue;
+        }
+        let mut praw = vec![];
+        events_from_node(&node, &mut praw);
+        let flow = rng.chance(1, 2);
+        let plain_text = if flow { render_flow(&node, &Names(None)) } else { render_block(&node, &Names(None)) };
+        if render_check(&plain_text, &praw).is_err() {
+            continue;
+        }
+        SCHEMA.with(|c| *c.borrow_mut() = Some(schema.clone()));
+        let t = plain_text.clone();
+        let plain = guarded(move || match serde_saphyr::from_str::<Dyn>(&t) { Ok(Dyn(n)) => n, Err(e) => errn(&e) }).unwrap_or_else(|p| N::errc(&format!("PANIC:{p}")));
+        // (1) wrap: one sub-node moved in front of the document and referred to by an alias
+        {
+            let p = rng.pick(&all).clone();
+            let sub = node_at(&node, &p);
+            // keys: only scalar keys are moved (an alias in key position)
+            let is_key = p.last().map(|x| x % 2 == 0).unwrap_or(false) && matches!(node_at(&node, &p[..p.len() - 1]), Node::Map { .. });
+            if !(is_key && !matches!(sub, Node::Scalar { .. })) {
+                let aliased_doc = replace_at(&node, &p, &Node::Alias { a: 1 });
+                let wrapped = Node::Seq { a: 0, t: String::new(), items: vec![with_anchor(sub, 1), aliased_doc] };
+                let mut araw = vec![];
+                events_from_node(&wrapped, &mut araw);
+                let text = if flow { render_flow(&wrapped, &Names(None)) } else { render_block(&wrapped, &Names(None)) };
+                if render_check(&text, &araw).is_ok() {
+                    let t = text.clone();
+                    let aliased = guarded(move || match serde_saphyr::from_str::<Second>(&t) { Ok(Second(n)) => n, Err(e) => errn(&e) }).unwrap_or_else(|p| N::errc(&format!("PANIC:{p}")));
+                    if !aliased.is_err() { stats.ok_values += 1; }
+                    if is_key { stats.key_position += 1; }
+                    stats.wrap += 1;
+                    w.put(&ARec { id: format!("w{i}"), form: "wrap", schema: &schema, yaml: &text, plain_yaml: &plain_text, araw: &araw, praw: &praw, plain: plain.clone(), aliased });
+                }
+            }
+        }
+        // (2) in place: a later sub-node identical to an earlier one becomes an alias to it
+        'outer: for (ai, p) in all.iter().enumerate() {
+            for q in all.iter().skip(ai + 1) {
+                if q.starts_with(p) {
+                    continue;
+                }
+                let (np, nq) = (node_at(&node, p), node_at(&node, q));
+                let q_is_key = q.last().map(|x| x % 2 == 0).unwrap_or(false) && matches!(node_at(&node, &q[..q.len() - 1]), Node::Map { .. });
+                if same_events(np, nq) && !(q_is_key && !matches!(nq, Node::Scalar { .. })) && rng.chance(1, 2) {
+                    let d1 = replace_at(&node, q, &Node::Alias { a: 1 });
+                    let d2 = replace_at(&d1, p, &with_anchor(np, 1));
+                    let mut araw = vec![];
+                    events_from_node(&d2, &mut araw);
+                    let text = if flow { render_flow(&d2, &Names(None)) } else { render_block(&d2, &Names(None)) };
+                    if render_check(&text, &araw).is_ok() {
+                        let t = text.clone();
+                        let aliased = guarded(move || match serde_saphyr::from_str::<Dyn>(&t) { Ok(Dyn(n)) => n, Err(e) => errn(&e) }).unwrap_or_else(|p| N::errc(&format!("PANIC:{p}")));
+                        if !aliased.is_err() { stats.ok_values += 1; }
+                        stats.inplace += 1;
+                        w.put(&ARec { id: format!("p{i}"), form: "inplace", schema: &schema, yaml: &text, plain_yaml: &plain_text, araw: &araw, praw: &praw, plain: plain.clone(), aliased });
+                    }
+                    break 'outer;
+                }
+            }
+        }
+    }
+    stats.records = w.n;
+    w.finish();
+    println!("{}", serde_json::to_string(&stats).unwrap());
+    0
+}
+
+// ------------------------------------------------------------------------------------------
+// C03 for typed targets: a mapping written with some of its entries supplied through `<<` must give the same typed result as
+// the mapping written out in full (records to TV_TypedMerge: {id, form, schema, mraw, praw, plain, merged})
+// ------------------------------------------------------------------------------------------
+#[derive(Serialize)]
+struct MRec<'a> {
+    id: String,
+    /// "inline": `<<: {..}` / `<<: [{..}, {..}]` in place; "wrap": [ &a {..}, document with `<<: *a` ] read as (IgnoredAny, T)
+    form: &'a str,
+    shadow: bool,
+    schema: &'a Schema,
+    yaml: &'a str,
+    plain_yaml: &'a str,
+    mraw: &'a [AEv],
+    praw: &'a [AEv],
+    plain: N,
+    merged: N,
+}
+/// mapping nodes that sit at a struct / map position of the schema (paths as in `paths`)
+fn merge_sites(s: &Schema, n: &Node, cur: &mut Vec<usize>, out: &mut Vec<Vec<usize>>) {
+    match (s.t.as_str(), n) {
+        ("Struct" | "Map", Node::Map { entries, .. }) => {
+            if !entries.is_empty() && entries.iter().all(|(k, _)| matches!(k, Node::Scalar { v, .. } if v != "<<")) {
+                out.push(cur.clone());
+            }
+            let names = ["a", "b", "c"];
+            for (i, (k, v)) in entries.iter().enumerate() {
+                let sub = if s.t == "Map" { Some(&s.ss[0]) } else { match k { Node::Scalar { v: kv, .. } => names.iter().position(|x| x == kv).and_then(|j| s.ss.get(j)), _ => None } };
+                if let Some(sub) = sub {
+                    cur.push(2 * i + 1);
+                    merge_sites(sub, v, cur, out);
+                    cur.pop();
+                }
+            }
+        }
+        ("Opt", _) => merge_sites(&s.ss[0], n, cur, out),
+        ("Seq", Node::Seq { items, .. }) => {
+            for (i, x) in items.iter().enumerate() {
+                cur.push(i);
+                merge_sites(&s.ss[0], x, cur, out);
+                cur.pop();
+            }
+        }
+        ("Tup", Node::Seq { items, .. }) => {
+            for (i, x) in items.iter().enumerate() {
+                if let Some(sub) = s.ss.get(i) {
+                    cur.push(i);
+                    merge_sites(sub, x, cur, out);
+                    cur.pop();
+                }
+            }
+        }
+        _ => {}
+    }
+}
+/// map entries sorted by key text at every level: merged entries are delivered after own ones, which only an
+/// order-preserving target can see
+fn sort_maps(n: &N) -> N {
+    let mut a: Vec<N> = n.a.iter().map(sort_maps).collect();
+    if n.c == "Map" {
+        a.sort_by(|x, y| serde_json::to_string(&x.a.first()).unwrap_or_default().cmp(&serde_json::to_string(&y.a.first()).unwrap_or_default()));
+    }
+    N { c: n.c.clone(), s: n.s.clone(), a }
+}
+#[derive(Default, Serialize)]
+struct MStats {
+    records: usize,
+    inline: usize,
+    wrap: usize,
+    shadowed: usize,
+    ok_values: usize,
+}
+pub fn run_merge(args: &Args) -> i32 {
+    let mut w = NdWriter::create(args.req("out"));
+    let mut stats = MStats::default();
+    let fam = schema_family();
+    let mut rng = Rng::new(args.num("seed", 1));
+    let nrand = args.num("random", 1000);
+    let mapn2 = |entries: Vec<(Node, Node)>| Node::Map { a: 0, t: String::new(), entries };
+    for i in 0..nrand {
+        let sd = 1 + rng.below(3);
+        let schema = if i % 3 == 0 { rng.pick(&fam).clone() } else { random_schema(&mut rng, sd) };
+        let mut node = matching(&schema, &mut rng);
+        if rng.chance(1, 4) {
+            let mut target = rng.below(count_nodes(&node)) as isize;
+            node = mutate_at(&node, &mut target, &mut rng);
+        }
+        let mut sites = vec![];
+        merge_sites(&schema, &node, &mut vec![], &mut sites);
+        // (a repeated key anywhere is C04's business and makes the delivery of the merged document a fault)
+        if sites.is_empty() || crate::c03::has_repeated_key(&node) {
+            continue;
+        }
+        let site = rng.pick(&sites).clone();
+        let Node::Map { entries, .. } = node_at(&node, &site).clone() else { continue };
+        // entries with distinct keys only (a repeated key is C04's business)
+        let mut keys = std::collections::HashSet::new();
+        if !entries.iter().all(|(k, _)| matches!(k, Node::Scalar { v, .. } if keys.insert(v.clone()))) {
+            continue;
+        }
+        // split: `moved` go to the merge source(s), `own` stay
+        let mut own = vec![];
+        let mut moved = vec![];
+        for e in entries.iter() {
+            if rng.chance(1, 2) { moved.push(e.clone()); } else { own.push(e.clone()); }
+        }
+        if moved.is_empty() {
+            moved.push(own.pop().unwrap());
+        }
+        // the mapping written out in full, in delivery order: own entries, then the merged ones
+        let full = mapn2(own.iter().cloned().chain(moved.iter().cloned()).collect());
+        let plain_doc = replace_at(&node, &site, &full);
+        let mut praw = vec![];
+        events_from_node(&plain_doc, &mut praw);
+        let flow = rng.chance(1, 2);
+        let plain_text = if flow { render_flow(&plain_doc, &Names(None)) } else { render_block(&plain_doc, &Names(None)) };
+        if render_check(&plain_text, &praw).is_err() {
+            continue;
+        }
+        // sources: one mapping, or a sequence of two; now and then a source also carries a key the mapping has itself (shadowed)
+        let shadow = !own.is_empty() && rng.chance(1, 3);
+        let mut src_entries = moved.clone();
+        if shadow {
+            let (k, _) = rng.pick(&own).clone();
+            src_entries.insert(rng.below(src_entries.len() + 1), (k, sc("shadowed")));
+        }
+        let sources: Vec<Node> = if src_entries.len() >= 2 && rng.chance(1, 3) {
+            let cut = 1 + rng.below(src_entries.len() - 1);
+            let mut first = src_entries[..cut].to_vec();
+            let second = src_entries[cut..].to_vec();
+            // now and then the earlier source also carries a key of the later one: the later element of a merge sequence wins
+            if rng.chance(1, 2) {
+                let (k, _) = rng.pick(&second).clone();
+                first.insert(rng.below(first.len() + 1), (k, sc("overridden")));
+            }
+            vec![mapn2(first), mapn2(second)]
+        } else {
+            vec![mapn2(src_entries)]
+        };
+        // now and then a source is itself written with a nested `<<` (own entries of a source win over what it merges in, whatever
+        // the position of its `<<` line; two nested `<<` entries: the later wins)
+        let sources: Vec<Node> = sources.into_iter().map(|src| {
+            let Node::Map { entries, .. } = &src else { return src };
+            if entries.is_empty() || !rng.chance(1, 3) { return src; }
+            let mut keep = vec![];
+            let mut inner = vec![];
+            for e in entries.iter() { if rng.chance(1, 2) { inner.push(e.clone()); } else { keep.push(e.clone()); } }
+            if inner.is_empty() { return src; }
+            if !keep.is_empty() && rng.chance(1, 2) {
+                let (k, _) = rng.pick(&keep).clone();
+                inner.insert(rng.below(inner.len() + 1), (k, sc("inner-shadowed")));
+            }
+            if inner.len() >= 2 && rng.chance(1, 2) {
+                // two nested merge entries sharing a key: the later one wins
+                let cut = 1 + rng.below(inner.len() - 1);
+                let mut i1 = inner[..cut].to_vec();
+                let i2 = inner[cut..].to_vec();
+                let (k, _) = rng.pick(&i2).clone();
+                if !i1.iter().any(|(k1, _)| same_events(k1, &k)) { i1.push((k, sc("earlier-loses"))); }
+                let at = rng.below(keep.len() + 1);
+                keep.insert(at, (sc("<<"), mapn2(i1)));
+                let at2 = at + 1 + rng.below(keep.len() - at);
+                keep.insert(at2, (sc("<<"), mapn2(i2)));
+            } else {
+                keep.insert(rng.below(keep.len() + 1), (sc("<<"), mapn2(inner)));
+            }
+            mapn2(keep)
+        }).collect();
+        let wrap = rng.chance(1, 2);
+        let merge_value = |srcs: &[Node]| if srcs.len() == 1 { srcs[0].clone() } else { Node::Seq { a: 0, t: String::new(), items: srcs.to_vec() } };
+        let (mdoc, form) = if wrap {
+            // the sources are defined in front of the document and referred to by aliases
+            let anchored: Vec<Node> = sources.iter().enumerate().map(|(j, n)| with_anchor(n, j as u32 + 1)).collect();
+            let refs: Vec<Node> = (0..sources.len()).map(|j| Node::Alias { a: j as u32 + 1 }).collect();
+            let mut es = own.clone();
+            es.insert(rng.below(es.len() + 1), (sc("<<"), merge_value(&refs)));
+            let d = replace_at(&node, &site, &mapn2(es));
+            (Node::Seq { a: 0, t: String::new(), items: vec![Node::Seq { a: 0, t: String::new(), items: anchored }, d] }, "wrap")
+        } else {
+            let mut es = own.clone();
+            es.insert(rng.below(es.len() + 1), (sc("<<"), merge_value(&sources)));
+            (replace_at(&node, &site, &mapn2(es)), "inline")
+        };
+        let mut mraw = vec![];
+        events_from_node(&mdoc, &mut mraw);
+        let text = if flow { render_flow(&mdoc, &Names(None)) } else { render_block(&mdoc, &Names(None)) };
+        if render_check(&text, &mraw).is_err() {
+            continue;
+        }
+        SCHEMA.with(|c| *c.borrow_mut() = Some(schema.clone()));
+        let t = plain_text.clone();
+        let plain = guarded(move || match serde_saphyr::from_str::<Dyn>(&t) { Ok(Dyn(n)) => n, Err(e) => errn(&e) }).unwrap_or_else(|p| N::errc(&format!("PANIC:{p}")));
+        let t = text.clone();
+        let merged = if wrap {
+            guarded(move || match serde_saphyr::from_str::<Second>(&t) { Ok(Second(n)) => n, Err(e) => errn(&e) })
+        } else {
+            guarded(move || match serde_saphyr::from_str::<Dyn>(&t) { Ok(Dyn(n)) => n, Err(e) => errn(&e) })
+        }
+        .unwrap_or_else(|p| N::errc(&format!("PANIC:{p}")));
+        if !merged.is_err() { stats.ok_values += 1; }
+        if wrap { stats.wrap += 1; } else { stats.inline += 1; }
+        if shadow { stats.shadowed += 1; }
+        w.put(&MRec { id: format!("m{i}"), form, shadow, schema: &schema, yaml: &text, plain_yaml: &plain_text, mraw: &mraw, praw: &praw, plain: sort_maps(&plain), merged: sort_maps(&merged) });
+    }
+    stats.records = w.n;
+    w.finish();
+    println!("{}", serde_json::to_string(&stats).unwrap());
+    0
+}
